@@ -12,8 +12,9 @@ from . import mirlib as M
 
 
 class CallGraph:
-    def __init__(self, cr):
+    def __init__(self, cr, over_approx=True):
         self.cr = cr
+        self.over_approx = over_approx
         self.edges = {}       # key -> set(keys)
         self.ext_calls = {}   # key -> list of (norm path, term) for non-local callees
         self.trait_impls = {}  # (trait path, method name) -> [impl fn keys]
@@ -123,7 +124,7 @@ class CallGraph:
                                     outs.add(d)
                                 continue
                     ext.append((M.norm_path(fn.get("path", "")), t))
-                    for ga in fn.get("ga", []):
+                    for ga in (fn.get("ga", []) if self.over_approx else []):
                         for adt in self._adts_in(ga):
                             outs.update(k2 for k2 in self.ext_trait_impls.get(adt, ()) if k2 in cr.fns)
                     # std trait methods implemented locally (Display::fmt, Iterator::next, From::from, ...):
